@@ -8,6 +8,7 @@
 import SqlizeModel.Proofs.OptsGood
 import SqlizeModel.Proofs.FidelityElems
 import SqlizeModel.Proofs.IdxRefine
+import SqlizeModel.Proofs.FidelityPk
 
 namespace Sqlize
 open Spec
@@ -99,15 +100,34 @@ structure TblEquiv (A B : TableSpec) : Prop where
   cols : ∀ c ∈ B.cols, ∃ c' ∈ A.cols, c'.name = c.name ∧ c'.typ = c.typ ∧ c'.opts.Perm c.opts
   colsBack : ∀ c' ∈ A.cols, c'.name ∈ B.colNames
   idxs : A.idxs.Perm B.idxs
+  pk : A.pk = B.pk
   fks : ∀ n, n ∈ A.fks.map (·.name) ↔ n ∈ B.fks.map (·.name)
 
 structure DBEquiv (A B : DB) : Prop where
   tables : ∀ tb ∈ B, ∃ ta ∈ A, ta.name = tb.name ∧ TblEquiv ta tb
   back : ∀ ta ∈ A, ta.name ∈ B.map (·.name)
 
+theorem pkOf_of_mem {is : List Index} (hnd : (is.map (·.name)).Nodup) {i : Index} (hi : i ∈ is) (hn : i.name = pkName) :
+    pkOf is = i.cols := by
+  unfold pkOf
+  have := find?_of_mem_nodup (fun y : Index => y.name) is i hnd hi
+  simp only [hn] at this
+  rw [this]
+  rfl
+
+theorem pkOf_ne_nil {is : List Index} (h : pkOf is ≠ []) : ∃ oi ∈ is, oi.name = pkName ∧ oi.cols = pkOf is := by
+  unfold pkOf at h ⊢
+  cases hf : is.find? (fun i => i.name == pkName) with
+  | none => rw [hf] at h; exact absurd rfl h
+  | some oi =>
+    refine ⟨oi, List.mem_of_find?_eq_some hf, by simpa using List.find?_some hf, ?_⟩
+    rfl
+
 /-- two model tables related to equivalent reference tables are `Table.Same` -/
 theorem table_same (d : Dialect) (hd : d = .mysql) (tA tB : Table) (tbA tbB : TableSpec) (hiA : tA.Inv) (hiB : tB.Inv)
-    (hpA : tA.Plain) (hpB : tB.Plain) (hcA : tA.colNames = tbA.colNames) (hcB : tB.colNames = tbB.colNames)
+    (hpA : tA.Plain False) (hpB : tB.Plain False) (hkA : pkOf tA.idxs = tbA.pk) (hkB : pkOf tB.idxs = tbB.pk)
+    (hsA : PkShape tA.idxs) (hsB : PkShape tB.idxs)
+    (hcA : tA.colNames = tbA.colNames) (hcB : tB.colNames = tbB.colNames)
     (htA : TypesOK tA tbA) (htB : TypesOK tB tbB)
     (hxA : idxSpecOf tA.idxs = tbA.idxs) (hxB : idxSpecOf tB.idxs = tbB.idxs)
     (hfA : fkSpecOf tA.fks = tbA.fks) (hfB : fkSpecOf tB.fks = tbB.fks)
@@ -136,30 +156,44 @@ theorem table_same (d : Dialect) (hd : d = .mysql) (tA tB : Table) (tbA tbB : Ta
     rw [hcB, ← hn]
     exact he.colsBack cs hcs
   · intro i hi
-    have hnpk := hpB.noPk i hi
-    have h1 : i.toSpec ∈ tbB.idxs := by
-      rw [← hxB]; unfold idxSpecOf
-      exact List.mem_map_of_mem (List.mem_filter.mpr ⟨hi, by simpa using hnpk⟩)
-    have h2 : i.toSpec ∈ idxSpecOf tA.idxs := by rw [hxA]; exact he.idxs.mem_iff.mpr h1
-    unfold idxSpecOf at h2
-    obtain ⟨oi, hoi, hoe⟩ := List.mem_map.mp h2
-    have hoi' := (List.mem_filter.mp hoi).1
-    have hon : oi.name = i.name := congrArg IdxSpec.name hoe
-    refine ⟨oi, hoi', hon, ?_⟩
-    have := (Table.same_iff_toSpec i oi (hlB i hi) (hlA oi hoi') hon).mpr hoe
-    simp only [Bool.and_eq_true, beq_iff_eq] at this
-    exact ⟨this.1.1, this.1.2, this.2⟩
+    by_cases hnpk : i.name = pkName
+    · -- the `primary_key` record: the other side has the very same record
+      have hic : pkOf tB.idxs = i.cols := pkOf_of_mem hiB.idxs.nodup hi hnpk
+      have hne : pkOf tA.idxs ≠ [] := by
+        rw [hkA, he.pk, ← hkB, hic]; exact (hlB i hi).ne
+      obtain ⟨oi, hoi, hon, hoc⟩ := pkOf_ne_nil hne
+      have heq : oi = i := by
+        rw [hsA oi hoi hon, hsB i hi hnpk, hoc, hkA, he.pk, ← hkB, hic]
+      exact ⟨oi, hoi, by rw [heq], by rw [heq]; exact ⟨rfl, rfl, rfl⟩⟩
+    · have h1 : i.toSpec ∈ tbB.idxs := by
+        rw [← hxB]; unfold idxSpecOf
+        exact List.mem_map_of_mem (List.mem_filter.mpr ⟨hi, by simpa using hnpk⟩)
+      have h2 : i.toSpec ∈ idxSpecOf tA.idxs := by rw [hxA]; exact he.idxs.mem_iff.mpr h1
+      unfold idxSpecOf at h2
+      obtain ⟨oi, hoi, hoe⟩ := List.mem_map.mp h2
+      have hoi' := (List.mem_filter.mp hoi).1
+      have hon : oi.name = i.name := congrArg IdxSpec.name hoe
+      refine ⟨oi, hoi', hon, ?_⟩
+      have := (Table.same_iff_toSpec i oi (hlB i hi) (hlA oi hoi') hon).mpr hoe
+      simp only [Bool.and_eq_true, beq_iff_eq] at this
+      exact ⟨this.1.1, this.1.2, this.2⟩
   · intro oi hoi
-    have hnpk := hpA.noPk oi hoi
-    have h1 : oi.toSpec ∈ tbA.idxs := by
-      rw [← hxA]; unfold idxSpecOf
-      exact List.mem_map_of_mem (List.mem_filter.mpr ⟨hoi, by simpa using hnpk⟩)
-    have h2 : oi.toSpec ∈ idxSpecOf tB.idxs := by rw [hxB]; exact he.idxs.mem_iff.mp h1
-    unfold idxSpecOf at h2
-    obtain ⟨i, hi, hie⟩ := List.mem_map.mp h2
-    have : i.name = oi.name := congrArg IdxSpec.name hie
-    rw [← this]
-    exact List.mem_map_of_mem (List.mem_filter.mp hi).1
+    by_cases hnpk : oi.name = pkName
+    · have hoc : pkOf tA.idxs = oi.cols := pkOf_of_mem hiA.idxs.nodup hoi hnpk
+      have hne : pkOf tB.idxs ≠ [] := by
+        rw [hkB, ← he.pk, ← hkA, hoc]; exact (hlA oi hoi).ne
+      obtain ⟨i, hi, hin, _⟩ := pkOf_ne_nil hne
+      rw [hnpk, ← hin]
+      exact List.mem_map_of_mem hi
+    · have h1 : oi.toSpec ∈ tbA.idxs := by
+        rw [← hxA]; unfold idxSpecOf
+        exact List.mem_map_of_mem (List.mem_filter.mpr ⟨hoi, by simpa using hnpk⟩)
+      have h2 : oi.toSpec ∈ idxSpecOf tB.idxs := by rw [hxB]; exact he.idxs.mem_iff.mp h1
+      unfold idxSpecOf at h2
+      obtain ⟨i, hi, hie⟩ := List.mem_map.mp h2
+      have : i.name = oi.name := congrArg IdxSpec.name hie
+      rw [← this]
+      exact List.mem_map_of_mem (List.mem_filter.mp hi).1
   · intro f hf
     have h1 : f.name ∈ tbB.fks.map (·.name) := by
       rw [← hfB, fkSpecOf_names]; exact List.mem_map_of_mem hf
@@ -189,7 +223,7 @@ theorem permEq_perm {α : Type} [DecidableEq α] : ∀ (a b : List α), permEq a
 /-- executable form of the equivalence (for the non-vacuity examples) -/
 def tblEquivB (A B : TableSpec) : Bool :=
   B.cols.all (fun c => A.cols.any (fun c' => c'.name == c.name && c'.typ == c.typ && permEq c'.opts c.opts)) &&
-  A.cols.all (fun c' => B.colNames.contains c'.name) && permEq A.idxs B.idxs &&
+  A.cols.all (fun c' => B.colNames.contains c'.name) && permEq A.idxs B.idxs && A.pk == B.pk &&
   (A.fks.map (·.name)).all (B.fks.map (·.name)).contains && (B.fks.map (·.name)).all (A.fks.map (·.name)).contains
 
 def dbEquivB (A B : DB) : Bool :=
@@ -198,8 +232,8 @@ def dbEquivB (A B : DB) : Bool :=
 theorem tblEquiv_of_B (A B : TableSpec) (h : tblEquivB A B = true) : TblEquiv A B := by
   unfold tblEquivB at h
   simp only [Bool.and_eq_true] at h
-  obtain ⟨⟨⟨⟨h1, h2⟩, h3⟩, h4⟩, h5⟩ := h
-  refine ⟨?_, ?_, permEq_perm _ _ h3, ?_⟩
+  obtain ⟨⟨⟨⟨⟨h1, h2⟩, h3⟩, hpk⟩, h4⟩, h5⟩ := h
+  refine ⟨?_, ?_, permEq_perm _ _ h3, by simpa using hpk, ?_⟩
   · intro c hc
     obtain ⟨c', hc', hp⟩ := List.any_eq_true.mp (List.all_eq_true.mp h1 c hc)
     simp only [Bool.and_eq_true, beq_iff_eq] at hp
@@ -224,16 +258,33 @@ theorem dbEquiv_of_B (A B : DB) (h : dbEquivB A B = true) : DBEquiv A B := by
 
 namespace ReaderMysql
 
-theorem run_plain (ss : List Stmt) : ∀ (m m' : Migration), m.Plain → ss.all Stmt.plain = true → run m ss = .ok m' →
-    m'.Plain := by
+theorem run_plain {K : Prop} (ss : List Stmt) : ∀ (m m' : Migration), m.Plain K → ss.all Stmt.plainOpts = true →
+    (K → ss.all Stmt.plain = true) → run m ss = .ok m' → m'.Plain K := by
   induction ss with
-  | nil => intro m m' h _ hs; unfold run at hs; exact (pure_ok hs) ▸ h
+  | nil => intro m m' h _ _ hs; unfold run at hs; exact (pure_ok hs) ▸ h
   | cons s rest ih =>
-    intro m m' h hp hs
+    intro m m' h hp hk hs
     simp only [List.all_cons, Bool.and_eq_true] at hp
     unfold run at hs
     obtain ⟨m1, h1, hs⟩ := bind_ok hs
-    exact ih m1 m' (step_plain m m1 s h hp.1 h1) hp.2 hs
+    have hk1 : K → s.plain = true := fun k => by
+      have := hk k; simp only [List.all_cons, Bool.and_eq_true] at this; exact this.1
+    have hk2 : K → rest.all Stmt.plain = true := fun k => by
+      have := hk k; simp only [List.all_cons, Bool.and_eq_true] at this; exact this.2
+    exact ih m1 m' (step_plain m m1 s h hp.1 hk1 h1) hp.2 hk2 hs
+
+theorem tablePk_of_plainOpts (s : Stmt) (h : s.plainOpts = true) : s.tablePk = true := by
+  have hc : ∀ c : ColDef, c.plain = true → c.noPk = true := by
+    intro c hc
+    unfold ColDef.plain at hc
+    unfold ColDef.noPk
+    rw [List.all_eq_true] at hc ⊢
+    intro o ho
+    have := hc o ho
+    simp only [Bool.and_eq_true] at this
+    exact this.1.2
+  cases s <;> simp_all [Stmt.plainOpts, Stmt.tablePk]
+  all_goals (first | (intro c hcm; exact hc c (h c hcm)) | exact hc _ h)
 
 end ReaderMysql
 
@@ -241,13 +292,17 @@ end ReaderMysql
     reference schemas ⇒ `Diff` returns and both migrations are empty -/
 theorem equal_schemas_empty (g : Globals) (hg : g.dialect = .mysql) (rc : Bool) (A B : List Stmt) (dbA dbB : DB)
     (hA : A.all Stmt.elemSafe = true) (hB : B.all Stmt.elemSafe = true)
-    (hpA : A.all Stmt.plain = true) (hpB : B.all Stmt.plain = true)
+    (hpA : A.all Stmt.plainOpts = true) (hpB : B.all Stmt.plainOpts = true)
     (heA : execAll rc [] A = some dbA) (heB : execAll rc [] B = some dbB) (heq : DBEquiv dbA dbB) :
     ∃ d, loadAndDiff g A B = .ok d ∧ d.migrationUp g = .ok (d, []) ∧ d.migrationDown g = .ok (d, []) := by
-  obtain ⟨mA, hmA, hrA, hxA⟩ := ReaderMysql.run_elems rc A {} [] dbA Rel.empty ElemsOK.empty hA heA
-  obtain ⟨mB, hmB, hrB, hxB⟩ := ReaderMysql.run_elems rc B {} [] dbB Rel.empty ElemsOK.empty hB heB
-  have hplA := ReaderMysql.run_plain A {} mA Migration.plain_empty hpA hmA
-  have hplB := ReaderMysql.run_plain B {} mB Migration.plain_empty hpB hmB
+  have htA : A.all Stmt.tablePk = true :=
+    List.all_eq_true.mpr (fun s hs => ReaderMysql.tablePk_of_plainOpts s (List.all_eq_true.mp hpA s hs))
+  have htB : B.all Stmt.tablePk = true :=
+    List.all_eq_true.mpr (fun s hs => ReaderMysql.tablePk_of_plainOpts s (List.all_eq_true.mp hpB s hs))
+  obtain ⟨mA, hmA, hrA, hxA, hkA⟩ := ReaderMysql.run_pk rc A {} [] dbA Rel.empty ElemsOK.empty PkOK.empty hA htA heA
+  obtain ⟨mB, hmB, hrB, hxB, hkB⟩ := ReaderMysql.run_pk rc B {} [] dbB Rel.empty ElemsOK.empty PkOK.empty hB htB heB
+  have hplA : mA.Plain False := ReaderMysql.run_plain A {} mA Migration.plain_empty hpA (fun k => k.elim) hmA
+  have hplB : mB.Plain False := ReaderMysql.run_plain B {} mB Migration.plain_empty hpB (fun k => k.elim) hmB
   have hsame : Migration.Same g.dialect mB mA := by
     refine ⟨?_, ?_⟩
     · intro t ht
@@ -275,7 +330,8 @@ theorem equal_schemas_empty (g : Globals) (hg : g.dialect = .mysql) (rc : Bool) 
       refine ⟨tA, hmemA, ?_, ?_⟩
       · rw [hnmA, htan, ← htbn]
       · exact table_same g.dialect hg tA tm ta tb (hrA.inv.each tA hmemA) (hrB.inv.each tm ht) (hplA tA hmemA)
-          (hplB tm ht) hcA hcB htyA htyB hviA hviB hvfA hvfB hlA hlB hequiv
+          (hplB tm ht) (hkA.at_ hrawA hdA) (hkB.at_ hrawB hdB) (hkA.shape _ (List.mem_of_getElem? hrawA))
+          (hkB.shape _ (List.mem_of_getElem? hrawB)) hcA hcB htyA htyB hviA hviB hvfA hvfB hlA hlB hequiv
     · intro ot hot
       have hn : ot.name ∈ dbA.map (·.name) := by rw [hrA.names]; exact List.mem_map_of_mem hot
       obtain ⟨ta, hta, htan⟩ := List.mem_map.mp hn
